@@ -37,7 +37,7 @@ LEVEL = "exploration"
 ASSUMPTIONS = [
     "small scope: keys/fingerprints from {00.., ff.., counting, seed-derived}; attenuation code is uniform in the key value",
     "a cap in the ro slot that is itself an unprefixed write-cap yields a writeable node (create_from_cap consults 'writecap or readcap'); the statement only speaks of caps *marked* read-only/immutable, so this is accepted and counted",
-    "an UnknownNode that keeps a 'ro.'-prefixed string in its rw slot is accepted: the marking is preserved verbatim and no interpretation happens",
+    "an UnknownNode built from BOTH slots that keeps a 'ro.'-prefixed string in its rw slot is accepted: the marking is preserved verbatim and no interpretation happens; a prefixed string given ALONE must not come back as the node's write uri",
     "is_mutable() of verify-caps is not constrained (they report False upstream although they designate a mutable slot)",
 ]
 
@@ -291,6 +291,10 @@ def check_node(w, r, deep, warm=False):
         if wu is not None:
             if deep:
                 bad.append(("unknown:write-uri-in-deep-immutable-context", "%s -> UnknownNode with write uri %r" % (where, wu)))
+            if L.split_alleged(wu)[0] and not r:
+                # (with BOTH slots given the rw-slot string is kept verbatim, see ASSUMPTIONS; given alone, a
+                # string marked ro./imm. is all the node knows, and it must not offer it as write authority)
+                bad.append(("unknown:alleged-readonly-string-reported-as-write-uri", "%s -> UnknownNode reports %r as its WRITE uri (it would be stored in a directory's rw slot)" % (where, wu)))
             if wu != w:
                 bad.append(("unknown:write-uri-not-from-rw-slot", "%s -> UnknownNode with write uri %r which is not the rw-slot string" % (where, wu)))
         if ru is not None:
